@@ -605,6 +605,7 @@ func c06OddMessageIDs(c *Ctx, r *Rand, idx int) {
 	idPool := pick(r, [][]int64{{1}, {1, 2}, {1, 2, 3}, {0, 1}, {7, 7, 8}, {1<<31 - 1, 1}, {5, 6, 7, 8, 9, 10, 11, 12, 13, 14, 15, 16, 17}})
 	var entered atomic.Int64
 	all := make(chan struct{})
+	giveUp := make(chan struct{})
 	var mu sync.Mutex
 	got := map[int]int{} // position -> Request.ID
 	srv, err := startSrv(SrvCfg{}, func(m *gldap.Mux) {
@@ -623,7 +624,7 @@ func c06OddMessageIDs(c *Ctx, r *Rand, idx int) {
 			}
 			select {
 			case <-all:
-			case <-time.After(patience):
+			case <-giveUp:
 			}
 			w.Write(req.NewResponse(gldap.WithApplicationCode(gldap.ApplicationDelResponse), gldap.WithResponseCode(0)))
 		})
@@ -653,6 +654,7 @@ func c06OddMessageIDs(c *Ctx, r *Rand, idx int) {
 		ok = true
 	case <-time.After(10 * time.Second):
 	}
+	close(giveUp)
 	c.Count("pipelines_with_repeated_message_ids", 1)
 	c.Count("requests_numbered", int64(n))
 	det := map[string]any{"message_ids": ids}
